@@ -1,0 +1,10 @@
+// +build !verif
+
+package tcp
+
+import "time"
+
+type timerVerif struct{}
+
+// verifArm is the identity outside verification builds.
+func (t *timer) verifArm(d time.Duration) time.Duration { return d }
